@@ -470,10 +470,69 @@ func main() {
 		addClass(fmt.Sprintf("random(cfg%d)", i%3), cfg, flat)
 		nBr++
 	}
+	// B2. surrogates on the small path (≤ 256 runes, alternation of literals): classes straddling the block edges, classes made
+	// of surrogates only (single and multi-range: no alternative left → compileNoMatch), surrogate ranges mixed with other
+	// small ranges, the 256/257 threshold with surrogate members, all three compiler configs
+	withNFA = true
+	nB2, nB2empty := 0, 0
+	addSurr := func(desc string, rs []rune) {
+		for ci := 0; ci < 3; ci++ {
+			cfg := def
+			switch ci {
+			case 1:
+				cfg.UseRuneStates = true
+			case 2:
+				cfg.Anchored = true
+			}
+			addClass(fmt.Sprintf("%s(cfg%d)", desc, ci), cfg, rs)
+			nB2++
+			if len(jobs[len(jobs)-1].got) == 0 {
+				nB2empty++
+			}
+		}
+	}
+	for _, w := range []rune{0, 1, 2, 15, 63, 64, 127, 254, 255, 256} {
+		for _, base := range []rune{0xD800, 0xD801, 0xDB00, 0xDBFF, 0xDC00, 0xDF00} {
+			if base+w <= 0xDFFF {
+				addSurr("allsurr", []rune{base, base + w})
+			}
+		}
+		if w <= 254 {
+			addSurr("straddle-lo", []rune{0xD7FF - w/2, 0xD7FF - w/2 + w})
+			addSurr("straddle-hi", []rune{0xDFFF - w/2, 0xDFFF - w/2 + w})
+		}
+		addSurr("end-at-d7ff", []rune{0xD7FF - w, 0xD7FF})
+		addSurr("start-at-e000", []rune{0xE000, 0xE000 + w})
+		addSurr("end-at-d800", []rune{0xD800 - w, 0xD800})
+		addSurr("start-at-dfff", []rune{0xDFFF, 0xDFFF + w})
+	}
+	addSurr("allsurr-multi", []rune{0xD800, 0xD80F, 0xDC00, 0xDC10})
+	addSurr("allsurr-multi", []rune{0xD800, 0xD800, 0xD802, 0xD802, 0xDFFF, 0xDFFF})
+	addSurr("allsurr-multi-256", []rune{0xD800, 0xD87F, 0xDC00, 0xDC7F})
+	addSurr("allsurr-multi-257", []rune{0xD800, 0xD87F, 0xDC00, 0xDC80})
+	addSurr("mixed", []rune{'a', 'c', 0xD800, 0xD803, 0x10000, 0x10002})
+	addSurr("mixed", []rune{0xE9, 0xE9, 0xD7F0, 0xD810, 0xDFF0, 0xE010})
+	addSurr("mixed", []rune{0x41, 0x41, 0xDBFF, 0xDC00})
+	addSurr("mixed-one-left", []rune{0xD7FF, 0xD7FF, 0xD900, 0xD9FE})
+	addSurr("mixed-one-left", []rune{0xD800, 0xD8FE, 0xE000, 0xE000})
+	addSurr("mixed-257", []rune{0xD7FF, 0xD7FF, 0xD900, 0xD9FF})
+	for i := 0; i < 300; i++ {
+		k := 1 + rng.Intn(4)
+		var flat []rune
+		next := rune(0xD700 + rng.Intn(0x100))
+		for j := 0; j < k && next <= 0xE100; j++ {
+			a := next + rune(rng.Intn(0x300))
+			b := a + rune(rng.Intn(70))
+			flat = append(flat, a, b)
+			next = b + 2
+		}
+		addSurr("random-near-surr", flat)
+	}
+
 	// C. pattern strings through syntax.Parse + Compile
 	pats := []string{`\d`, `\D`, `\w`, `\W`, `\s`, `\S`, `[a-z]`, `[^a]`, `[^a-z0-9]`, `[[:alpha:]]`, `[[:^alpha:]]`, `[\x00-\x7f]`, `[^\x00-\x7f]`,
 		`\pL`, `\PL`, `\pN`, `\p{Greek}`, `\P{Greek}`, `\p{Han}`, `\P{Han}`, `\pZ`, `\p{Lu}`, `\p{Cyrillic}`, `[é-ü]`, `[а-я]`, `[^а-я]`, `[a-zé]`, `[αβγ]`, `[世界]`,
-		`(?i:[k])`, `(?i:[a-z])`, `(?i:\pL)`, `(?i:[я-яσ])`, `[^\n]`, `[\x{fffd}]`, `[^\x{fffd}]`, `[\x{d800}-\x{dfff}]`, `[\x{d7ff}-\x{d800}]`, `[\x{dfff}-\x{e000}]`, `[\x{d000}-\x{efff}]`,
+		`(?i:[k])`, `(?i:[a-z])`, `(?i:\pL)`, `(?i:[я-яσ])`, `[^\n]`, `[\x{fffd}]`, `[^\x{fffd}]`, `[\x{d800}-\x{dfff}]`, `[\x{d7ff}-\x{d800}]`, `[\x{dfff}-\x{e000}]`, `[\x{d000}-\x{efff}]`, `[\x{d800}-\x{d8ff}]`, `[\x{d800}-\x{d900}]`, `[\x{d800}\x{dc00}]`, `\x{d800}`, `\x{dfff}`, `[a\x{d800}]`, `[\x{d800}-\x{d80f}\x{dc00}-\x{dc0f}]`,
 		`\p{Emoji}`, `\p{Latin}`, `\p{Arabic}`, `\pS`, `\pP`, `\pM`, `\PM`, `\p{Cc}`, `\p{Co}`, `\P{Co}`, `\p{Cs}`, `\P{Cs}`}
 	for _, lo := range pts {
 		for _, hi := range pts {
@@ -558,8 +617,8 @@ func main() {
 	}
 	// D. the real automaton against the SPEC (independent of Lean): probe runes around every range end + random runes, and
 	// ill-formed strings.  Oracle = right-hand side of classSeqs_exact / compileUTF8Range_exact: encodings of the scalar
-	// members, plus (class, large path, non-ASCII part = 0x80-0x10FFFF) any single byte 0x80-0xFF, plus (class, small path)
-	// the raw 3-byte form of surrogate members.  Mismatches against the PLAIN spec (no extras) are counted separately.
+	// members, plus (class, large path, non-ASCII part = 0x80-0x10FFFF) any single byte 0x80-0xFF — nothing else (since
+	// b9d1f3d the small path skips surrogate members).  Mismatches against the PLAIN spec (no extras) are counted separately.
 	plainDiff, plainSurr, plainInvalid := 0, 0, 0
 	illformed := [][]byte{{0xED, 0xA0, 0x80}, {0xED, 0xBF, 0xBF}, {0xED, 0xA3, 0x91}, {0xC0, 0x80}, {0xE0, 0x80, 0x80}, {0xF0, 0x80, 0x80, 0x80}, {0xF4, 0x90, 0x80, 0x80},
 		{0xC1, 0xBF}, {0xE0, 0x9F, 0xBF}, {0xF0, 0x8F, 0xBF, 0xBF}, {0x80}, {0xBF}, {0xC2}, {0xFF}, {0xF5, 0x80, 0x80, 0x80}, {0xC2, 0x80, 0x80}, {0xE1, 0x80}, {}}
@@ -569,7 +628,6 @@ func main() {
 			probes = append(probes, e-1, e, e+1)
 		}
 		probes = append(probes, 0x7F, 0x80, 0x7FF, 0x800, 0xD7FF, 0xE000, 0xFFFD, 0xFFFF, 0x10000, 0x10FFFF, randRune(rng), randRune(rng))
-		small := j.kind == "class" && smallPath(j.rs)
 		covers := j.kind == "class" && largeCovers(j.rs)
 		for _, r := range probes {
 			if r < 0 || r > 0x10FFFF || isSurr(r) {
@@ -587,16 +645,20 @@ func main() {
 				}
 			}
 		}
-		for _, raw := range illformed {
+		raws := illformed
+		for _, e := range j.rs { // the raw 3-byte form of every surrogate range end (and its neighbours)
+			for d := rune(-1); d <= 1; d++ {
+				if sr := e + d; isSurr(sr) {
+					raws = append(raws[:len(raws):len(raws)], []byte{0xED, byte(0x80 | (sr>>6)&0x3F), byte(0x80 | sr&0x3F)})
+				}
+			}
+		}
+		for _, raw := range raws {
 			specProbes++
 			got := matches(j.got, raw)
 			want := false
 			if covers && len(raw) == 1 && raw[0] >= 0x80 {
 				want = true
-			}
-			if small && len(raw) == 3 && raw[0] == 0xED && raw[1] >= 0xA0 {
-				sr := rune(0xD000) | rune(raw[1]&0x3F)<<6 | rune(raw[2]&0x3F)
-				want = inClass(sr, j.rs)
 			}
 			if got {
 				plainDiff++
@@ -617,12 +679,13 @@ func main() {
 	}
 	fmt.Printf("A compileUTF8Range direct: %d boundary pairs + %d random pairs\n", nA, *nrand)
 	fmt.Printf("B compileCharClass on class nodes: %d boundary (single + padded) + %d random multi-range classes (3 compiler configs)\n", nB, nBr)
+	fmt.Printf("B2 surrogates on the small path / around the block edges: %d class instances (3 compiler configs), %d of them compile to no sequence (Fail start)\n", nB2, nB2empty)
 	fmt.Printf("C patterns through syntax.Parse + Compile: %d\n", nC)
 	fmt.Printf("total instances %d, total sequences compared %d (largest automaton %d sequences)\n", len(jobs), nseq, maxseq)
 	fmt.Printf("ordered structural mismatches model vs code: %d (of which language mismatches: %d)\n", structDiff, langDiff)
 	fmt.Printf("Lean-side NFA-level checks (pathsOf N = model, hypothesis of nfa_class_exact / nfa_range_exact): %d, not ok: %d\n", len(nfaAns), nfaBad)
 	fmt.Printf("probes on the real automata: %d; mismatches against the theorem's right-hand side: %d\n", specProbes, specDiff)
-	fmt.Printf("  accepted strings that are NOT encodings of class members (plain spec): %d = %d raw surrogates in small classes (defect) + %d lone bytes 0x80-0xFF in any-non-ASCII classes (deliberate)\n", plainDiff, plainSurr, plainInvalid)
+	fmt.Printf("  accepted strings that are NOT encodings of class members (plain spec): %d = %d raw surrogate forms (expected 0 since b9d1f3d) + %d lone bytes 0x80-0xFF in any-non-ASCII classes (deliberate)\n", plainDiff, plainSurr, plainInvalid)
 	_ = pikeDiff
 	_ = pikeProbes
 	_ = utf8.RuneLen
